@@ -89,33 +89,40 @@ def validate(prop, k, wt, outdir):
 
 
 def detect(sid, props):
+    """Run the quick checks against a scratch worktree of /repo with the seeded change applied
+    (check.py's VERIF_REPO development mode), so that /repo itself is never modified and several
+    detections can run side by side.  SEED_TIER=thorough selects the thorough tier."""
     dest = os.path.join(SEEDED, sid)
     meta = json.load(open(os.path.join(dest, "meta.json")))
     if not props:
         props = [meta["breaks"]]
-    rc, out = sh("git -C /repo status --porcelain")
-    if out.strip():
-        print("refusing: /repo has local changes")
-        return 2
-    rc, out = sh("git -C /repo apply %s/patch.diff" % dest)
+    tier = os.environ.get("SEED_TIER", "quick")
+    wt = "/tmp/sd/%s" % sid
+    sh("mkdir -p /tmp/sd; git -C /repo worktree remove --force %s; rm -rf %s" % (wt, wt))
+    rc, out = sh("git -C /repo worktree add -q --detach %s HEAD" % wt)
     if rc != 0:
-        print("patch does not apply to /repo", out)
+        print("cannot create worktree", out)
         return 2
     try:
+        rc, out = sh("git apply %s/patch.diff" % dest, wt)
+        if rc != 0:
+            print("patch does not apply", out)
+            return 2
         for p in props:
             t0 = time.time()
-            rc, out = sh("python3 tools/check.py %s --tier quick" % p, ROOT)
+            rc, out = sh("VERIF_REPO=%s python3 tools/check.py %s --tier %s" % (wt, p, tier), ROOT, timeout=4 * 3600)
             viol = [l for l in out.splitlines() if l.startswith("VIOLATION")]
             tail = [l for l in out.splitlines() if l.strip()][-1:] if out.strip() else []
-            meta.setdefault("detection", {})[p] = dict(exit=rc, violations=len(viol), secs=round(time.time() - t0, 1),
+            meta.setdefault("detection", {})[p] = dict(exit=rc, violations=len(viol), secs=round(time.time() - t0, 1), tier=tier,
                                                        first=(viol[0] if viol else ""), summary=tail)
-            print("%s vs %s: exit %d, %d VIOLATION lines (%.0fs) %s" % (sid, p, rc, len(viol), time.time() - t0, tail))
-            # keep one reason for the record
+            print("%s vs %s: exit %d, %d VIOLATION lines (%.0fs) %s" % (sid, p, rc, len(viol), time.time() - t0, tail), flush=True)
             why = [l for l in out.splitlines() if l.startswith("  ") and "[" in l][:2]
             if why:
                 meta["detection"][p]["why"] = why
+            if rc == 2:
+                meta["detection"][p]["tool_error"] = out[-1500:]
     finally:
-        sh("git -C /repo checkout -- . && git -C /repo clean -fdq -e target")
+        sh("git -C /repo worktree remove --force %s; rm -rf %s; git -C /repo worktree prune" % (wt, wt))
     json.dump(meta, open(os.path.join(dest, "meta.json"), "w"), indent=1)
     return 0
 
